@@ -125,20 +125,25 @@ def check_slab(o, Tsi, Tmw, Tso, Tin, hin, Tout, hout, q3, t, k, adiabatic, tag)
     g_out = slope_mid + curv * half     # dT/dx at the outer surface
     f_in = hin * (Tin - Tsi)            # flux entering the wall from the inner coolant
     fscale = max(float(np.max(np.abs(f_in))), float(np.max(q3)) * t, 1e-9)
-    e2 = float(np.max(np.abs(f_in + k * g_in))) / fscale
-    o.check(e2 <= TOL * 100, tag + "_inner_flux_continuity", "%.3e" % e2)
+    # absolute floor: a film flux h (T_a - T_b) of two temperatures ~T carries a round-off of ~1e-13 T h (and k/t likewise)
+    Tabs = float(np.max(np.abs(Tsi)))
+    hmax = max(float(np.max(hin)), 0.0 if adiabatic else float(np.max(hout)), 4.0 * k / t)
+    floor = 2e-12 * Tabs * hmax
+    e2 = float(np.max(np.abs(f_in + k * g_in)))
+    o.check(e2 <= TOL * 100 * fscale + floor, tag + "_inner_flux_continuity", "%.3e of the flux scale" % (e2 / fscale))
     if adiabatic:
-        e3 = float(np.max(np.abs(k * g_out))) / fscale
-        o.check(e3 <= TOL * 100, tag + "_adiabatic_outer_gradient", "%.3e" % e3)
+        e3 = float(np.max(np.abs(k * g_out)))
+        o.check(e3 <= TOL * 100 * fscale + floor, tag + "_adiabatic_outer_gradient", "%.3e of the flux scale" % (e3 / fscale))
         bal = f_in + q3 * t
     else:
         f_out = hout * (Tso - Tout)
         fscale = max(fscale, float(np.max(np.abs(f_out))))
-        e3 = float(np.max(np.abs(f_out + k * g_out))) / fscale
-        o.check(e3 <= TOL * 100, tag + "_outer_flux_continuity", "%.3e" % e3)
+        e3 = float(np.max(np.abs(f_out + k * g_out)))
+        o.check(e3 <= TOL * 100 * fscale + floor, tag + "_outer_flux_continuity", "%.3e of the flux scale" % (e3 / fscale))
         bal = f_in + q3 * t - f_out
-    e4 = float(np.max(np.abs(bal))) / fscale
-    o.check(e4 <= TOL * 100, tag + "_flux_balance", "in + generated - out = %.3e of the flux scale" % e4)
+    e4 = float(np.max(np.abs(bal)))
+    o.check(e4 <= TOL * 100 * fscale + floor, tag + "_flux_balance", "in + generated - out = %.3e of the flux scale" % (e4 / fscale))
+    e2, e3, e4 = e2 / fscale, e3 / fscale, e4 / fscale
     if not np.any(q3 > 0):
         lo = np.minimum(Tin, Tin if adiabatic else Tout) - 1e-9
         hi = np.maximum(Tin, Tin if adiabatic else Tout) + 1e-9
